@@ -312,7 +312,7 @@ Proof. exact schema_example. Qed.
 (* a relative one-component directory target and a job whose path is the target itself: _mkdir_p('')
    raises before anything is created (original behaviour, allowed by C16); other paths are unaffected *)
 Example C16_example_relative_target :
-  let o := {| o_asc := true; o_frepr := []; o_text := []; o_parse := o_parse (orc [j_a1]); o_rel := true |} in
+  let o := {| o_asc := true; o_frepr := []; o_text := []; o_parse := o_parse (orc [j_a1]); o_rel := true; o_origin := [] |} in
   (let e := export_model o [j_a1] KDir PNone in eo_exn e = Some EOSError /\ art_empty (eo_art e) = true)
   /\ (let e := export_model o root_jobs KDir PNone in eo_exn e = None /\ eo_map e = [q "a/1"; q "a/2"]).
 Proof. exact rel_target_example. Qed.
